@@ -127,6 +127,10 @@ VARIANT_RAWS = {
     "(switch (x) case q9: int -> q9 + y case _ -> 0)": ("ok", {"x", "y"}, set()),
     "(consume z)": ("mutates", "z"), "(y max= 3)": ("mutates", "y"), "(z[0] max= y)": ("mutates", "z"), "(y, x = 1, 2)": ("mutates", "y"),
     "(z2 := z; consume z2)": ("ok", {"z"}, set()), "(1 < y <= 20)": ("ok", {"y"}, set()), "(y max x min 3)": ("ok", {"y", "x"}, set()),
+    # sequences that end in `;` evaluate to null - alone, last in an enclosing sequence, first in it, nested twice
+    "(y;)": ("ok", {"y"}, set()), "(x; (y;))": ("ok", {"x", "y"}, set()), "((y;); x)": ("ok", {"x", "y"}, set()), "(x; (y; (x;)))": ("ok", {"x", "y"}, set()),
+    "(q9 := x; (q9;))": ("ok", {"x"}, set()), "((y;) coalesce x)": ("ok", {"x", "y"}, set()), "[(x; y;), (x; y)]": ("ok", {"x", "y"}, set()),
+    "(x; (y); (z;); x;)": ("ok", {"x", "y", "z"}, set()),
     "(x . (+ y))": ("ok", {"x", "y"}, set()), "(x then (* y))": ("ok", {"x", "y"}, set()), "(\\...r9 -> [r9, y])(x)": ("ok", {"y", "x"}, set()),
 }
 RAW_INFO.update(VARIANT_RAWS)
